@@ -2,6 +2,7 @@ import UralModel.Props.C07
 import UralModel.Lemmas.C07Whole
 import UralModel.Model.NormalizeUrl
 import UralModel.Model.FingerprintUrl
+import UralModel.Lemmas.Redirect
 /-!
 # C07 on STRINGS: the parser inside the model
 
@@ -482,5 +483,46 @@ theorem bare_hostname_string (puny : Str → Str) (hpc : PunyClean puny) (hpl : 
   exact normalized_hostname_string puny hpc hpl amp (bare_hostClass h hb)
 
 end
+
+/-! ## non-vacuity -/
+
+/-- `" HTTP://WWW.Lemonde.fr:80/a%2fb/index.html?utm_source=x\0 "`: white space and a control
+character around, upper case, a default port, a lower-case escape, an index page, a tracking item -/
+def exU : Str := " HTTP://WWW.Lemonde.fr:80/a%2fb/index.html?utm_source=x\x00 ".toList
+
+def exG : UrlG :=
+  { proto := .scheme "HTTP".toList, ui := none, host := "WWW.Lemonde.fr".toList, port := some "80".toList,
+    path := "/a%2Fb/index.html".toList, query := some "utm_source=x".toList, fragment := none }
+
+/-- what `exU.lower()` is cleaned to -/
+def exGl : UrlG :=
+  { proto := .scheme "http".toList, ui := none, host := "www.lemonde.fr".toList, port := some "80".toList,
+    path := "/a%2Fb/index.html".toList, query := some "utm_source=x".toList, fragment := none }
+
+theorem inClassOf_of_no_redirect {g : UrlG} {u : Str} (hw : g.wf = true)
+    (h1 : domainSplit (cleanedUrl u) = none) (h2 : redirectSearch (cleanedUrl u) = none)
+    (h3 : preClean u = g.str) : InClassOf true g u := by
+  refine ⟨hw, ?_⟩
+  unfold resolvedClean
+  rw [if_pos rfl, Ural.infer_eq_self_of_clean u h1 h2, h3]
+
+example : HostClass true exG (some 80) exU ∧ HostClass false exG (some 80) exU ∧
+    HostClass true exGl (some 80) (lower exU) ∧ FpReparse.HostPlain exGl.host ∧
+    PunyClean id ∧ PunyLower id := by
+  refine ⟨⟨⟨inClassOf_of_no_redirect ?_ ?_ ?_ ?_, rfl, ?_⟩, ?_, ?_⟩,
+    ⟨⟨⟨?_, ?_⟩, rfl, ?_⟩, ?_, ?_⟩,
+    ⟨⟨inClassOf_of_no_redirect ?_ ?_ ?_ ?_, rfl, ?_⟩, ?_, ?_⟩, ?_, punyClean_id, punyLower_id⟩ <;>
+    decide +kernel
+
+/-- both sides of `normalized_hostname_string` on that input, and the stems of its result -/
+example :
+    getNormalizedHostname id hostOfModel true false exU = some "lemonde.fr".toList ∧
+    normalizeUrlString id id (ampOpts true) false exU = "lemonde.fr/a%2Fb".toList ∧
+    hostAfterEnsure hostOfModel "lemonde.fr/a%2Fb".toList = some "lemonde.fr".toList ∧
+    normalizedLruStems (fun _ => none) id parseUrl id (ampOpts true) false false exU =
+      some ["h:fr".toList, "h:lemonde".toList, "p:a%2Fb".toList] ∧
+    lruStemsOfUrl (fun _ => none) modelSplit5 false "lemonde.fr/a%2Fb".toList =
+      some ["s:http".toList, "h:fr".toList, "h:lemonde".toList, "p:a%2Fb".toList] := by
+  decide +kernel
 
 end Ural.Props.C07
